@@ -1211,6 +1211,8 @@ class CompositeEnvelope:
         # Make sure the order of the states in tensoring is correct
         self.reorder(*states)
 
+        # Reordering may have combined the states into a new product state
+        ps = [p for p in self.states if all(so in p.state_objs for so in states)][0]
         outcome = ps.measure_POVM(operators, *states, destructive=destructive)
         return outcome
 
@@ -1292,6 +1294,8 @@ class CompositeEnvelope:
         # Make sure the order of the states in tensoring is correct
         self.reorder(*states)
 
+        # Reordering may have combined the states into a new product state
+        ps = [p for p in self.states if all(so in p.state_objs for so in states)][0]
         ps.apply_kraus(operators, *states)
 
     def trace_out(self, *states: Union["BaseState"]) -> jnp.ndarray:
